@@ -326,7 +326,7 @@ pub fn reading(s: &Sentence, defaults: Option<&mv_core::desc::Vals>) -> TlDesc {
             }
         }
     }
-    TlDesc { timing, default_ez, kfs }
+    TlDesc { timing, default_ez, kfs, order: 0 }
 }
 
 // ---- ill-formed mutants
